@@ -349,3 +349,13 @@ Theorem C08_window_next : forall t d off, (0 < d)%Z -> in_range t d off -> in_ra
   window (snd (window t d off)) d off = (snd (window t d off), (snd (window t d off) + d)%Z).
 Proof. exact window_next. Qed.
 Print Assumptions C08_window_next.
+(* translation invariance (the windows met by the fill path are start + k * d, k of either sign); only the offset modulo
+   the interval matters *)
+Theorem C08_window_shift : forall t k d off, (0 < d)%Z -> in_range t d off -> in_range (t + k * d)%Z d off ->
+  window (t + k * d)%Z d off = ((fst (window t d off) + k * d)%Z, (snd (window t d off) + k * d)%Z).
+Proof. exact window_shift. Qed.
+Print Assumptions C08_window_shift.
+Theorem C08_window_offset_mod : forall t k d off, (0 < d)%Z -> in_range t d off -> in_range t d (off + k * d)%Z ->
+  window t d (off + k * d)%Z = window t d off.
+Proof. exact window_offset_mod. Qed.
+Print Assumptions C08_window_offset_mod.
